@@ -69,6 +69,7 @@ func selectJobs(w *World, o *checkOpts) []job {
 
 func runCheck(w *World, o *checkOpts, t0 time.Time) int {
 	w.tier = o.tier
+	w.property = o.property
 	jobs := selectJobs(w, o)
 	if len(jobs) == 0 {
 		fmt.Fprintln(os.Stderr, "no functions under contract selected")
@@ -84,9 +85,9 @@ func runCheck(w *World, o *checkOpts, t0 time.Time) int {
 		return 2
 	}
 	defer os.RemoveAll(tmp)
-	cfg := &solveCfg{tmp: tmp, fastSec: 3, fullSec: 20}
+	cfg := &solveCfg{tmp: tmp, fastSec: 10, fullSec: 30}
 	if o.tier == "thorough" {
-		cfg.fastSec, cfg.fullSec = 10, 120
+		cfg.fastSec, cfg.fullSec = 20, 180
 	}
 	if o.keep != "" {
 		os.MkdirAll(o.keep, 0o755)
@@ -193,9 +194,22 @@ func report(w *World, o *checkOpts, results []*JobResult, wall float64) int {
 	usedContracts := map[string]bool{}
 	boundedLoops := map[string]int{}
 	abstracted := map[string][]string{}
-	var deferred []string
+	var deferred, unproved []string
 	exit := 0
 	vacuityOK := 0
+	// a known finding is tolerated only while the clause "<label>.actual"
+	// (which pins down the known, deviant behaviour exactly) still holds;
+	// otherwise the failure is a different violation and is reported
+	status := map[string]string{}
+	for _, jr := range results {
+		for _, ob := range jr.Obls {
+			status[ob.ID] = ob.Result.Status
+		}
+	}
+	stillKnown := func(id string) bool {
+		s, ok := status[id+".actual"]
+		return !ok || s == "unsat"
+	}
 	for _, jr := range results {
 		if jr.Err != "" {
 			fmt.Printf("UNDECIDED property=%s reason=%s function=%s\n", o.property, strings.ReplaceAll(jr.Err, "\n", " "), jr.Name)
@@ -258,7 +272,9 @@ func report(w *World, o *checkOpts, results []*JobResult, wall float64) int {
 				discharged++
 				bySolver[ob.Result.Solver]++
 				secsBySolver[ob.Result.Solver] += ob.Result.Secs
-			} else if f := kf.open(o.property, ob.ID); f != nil {
+			} else if ob.Kind == "safety" && ob.Cut && jr.Contract != nil && jr.Contract.Abstracted {
+				unproved = append(unproved, ob.ID)
+			} else if f := kf.open(o.property, ob.ID); f != nil && stillKnown(ob.ID) {
 				known = append(known, ob)
 				fmt.Printf("KNOWN-FINDING: property=%s %s: %s\n", o.property, ob.ID, f.What)
 			} else {
@@ -291,15 +307,15 @@ func report(w *World, o *checkOpts, results []*JobResult, wall float64) int {
 		}
 		fmt.Printf("VIOLATION property=%s replay=%s%s\n", o.property, path, suffix)
 	}
-	fmt.Printf("property=%s tier=%s functions=%d obligations=%d discharged=%d failed=%d known=%d bounded=%d undecided=%d wall=%.1fs solvers=%v\n",
-		o.property, o.tier, len(results), total, discharged, len(fails), len(known), len(bounded), undecided, wall, bySolver)
+	fmt.Printf("property=%s tier=%s functions=%d obligations=%d discharged=%d failed=%d known=%d bounded=%d unproved_swept=%d undecided=%d wall=%.1fs solvers=%v\n",
+		o.property, o.tier, len(results), total, discharged, len(fails), len(known), len(bounded), len(unproved), undecided, wall, bySolver)
 	if len(fails) > 0 && exit == 0 {
 		exit = 1
 	}
 	if o.property != "" && o.funcs == "" {
 		writeEvidence(w, o, evidenceInput{all: all, funcs: funcs, total: total, discharged: discharged, violations: violations, known: known, bounded: bounded,
 			bySolver: bySolver, secsBySolver: secsBySolver, trusted: trusted, inlined: inlined, used: usedContracts, boundedLoops: boundedLoops,
-			abstracted: abstracted, deferred: deferred, wall: wall, undecided: undecided, vacuityOK: vacuityOK})
+			abstracted: abstracted, deferred: deferred, unproved: unproved, wall: wall, undecided: undecided, vacuityOK: vacuityOK})
 	}
 	return exit
 }
@@ -320,6 +336,7 @@ type evidenceInput struct {
 	boundedLoops map[string]int
 	abstracted   map[string][]string
 	deferred     []string
+	unproved     []string
 	wall         float64
 	undecided    int
 	vacuityOK    int
@@ -397,6 +414,7 @@ func writeEvidence(w *World, o *checkOpts, in evidenceInput) {
 		"abstracted_calls":         in.abstracted,
 		"not_under_contract":       notUnder,
 		"deferred_to_thorough":     in.deferred,
+		"unproved_swept":           in.unproved,
 		"vacuity_guards_sat":       in.vacuityOK,
 		"undecided":                in.undecided,
 		"integer_semantics":        "fixed-width two's-complement bit-vectors of the real width; no mathematical integers",
